@@ -919,6 +919,59 @@ func c09RunSoak(n int, waitTimeout string, init int64) *c09Soak {
 	return s
 }
 
+// c09InsertSoak: n processes at once run a read-modify-write in ONE statement whose source reads its own target,
+// INSERT INTO ids SELECT MAX(id) + 1 FROM ids.  The target is held for update from the start of the statement,
+// so the statements are serialised: the k that succeed must leave the ids init .. init+k, each once.
+func c09InsertSoak(n int, meta *Meta) {
+	sc := newScratch()
+	defer sc.Close()
+	if err := os.WriteFile(sc.Path("ids.csv"), []byte("id,who\n1,init\n"), 0644); err != nil {
+		panic(err)
+	}
+	res := make([]RunResult, n)
+	var wg sync.WaitGroup
+	start := make(chan struct{})
+	for i := 0; i < n; i++ {
+		wg.Add(1)
+		go func(i int) {
+			defer wg.Done()
+			<-start
+			res[i] = runCsvq(sc.Dir, []string{"-r", sc.Dir, "-q", "--wait-timeout", "30", fmt.Sprintf("INSERT INTO `ids.csv` SELECT MAX(id) + 1, 'p%d' FROM `ids.csv`", i)}, "", 90*time.Second)
+		}(i)
+	}
+	close(start)
+	wg.Wait()
+	ok := 0
+	var errs []string
+	for _, r := range res {
+		if r.Code == 0 && !r.TimedOut {
+			ok++
+		} else if len(errs) < 3 {
+			errs = append(errs, strings.TrimSpace(r.Stderr))
+		}
+	}
+	b, _ := os.ReadFile(sc.Path("ids.csv"))
+	lines := strings.Split(strings.TrimSpace(string(b)), "\n")
+	seen := map[string]int{}
+	for _, l := range lines[1:] {
+		seen[strings.SplitN(l, ",", 2)[0]]++
+	}
+	bad := len(lines)-1 != ok+1
+	for k := 1; k <= ok+1; k++ {
+		if seen[strconv.Itoa(k)] != 1 {
+			bad = true
+		}
+	}
+	meta.Evaluations += n
+	meta.Distribution["insert-select-soak:processes"] += n
+	meta.Distribution["insert-select-soak:succeeded"] += ok
+	if bad {
+		meta.Direct = append(meta.Direct, DirectViolation{Key: "insert-select-not-serialised",
+			What: fmt.Sprintf("%d processes at once ran INSERT INTO ids SELECT MAX(id) + 1 FROM ids; %d succeeded, but the file does not hold the ids 1..%d once each: an update was lost or made from a stale read", n, ok, ok+1),
+			Case: map[string]interface{}{"file": string(b), "stderr of failures": errs, "command": "csvq -r DIR -q --wait-timeout 30 \"INSERT INTO `ids.csv` SELECT MAX(id) + 1, 'pK' FROM `ids.csv`\"  (N at once)"}})
+	}
+}
+
 func coqSoak(id int, s *c09Soak, atomic bool) string {
 	fin := "None"
 	if s.Final >= 0 {
@@ -1096,6 +1149,12 @@ func runC09(seed int64, tier string, out string) {
 	w.flush()
 
 	// real processes
+	c09InsertSoak(8, meta)
+	if tier == "thorough" {
+		for i := 0; i < 6; i++ {
+			c09InsertSoak(6+2*i, meta)
+		}
+	}
 	sid := 100000
 	for _, sk := range soaks {
 		s := c09RunSoak(sk[0].(int), sk[1].(string), int64(r.Intn(5)))
